@@ -82,6 +82,14 @@ _CORPUS = {
                              _rm(['1/a', '1/b']), _L, _L]),
 }
 
+# a finished chain is run again in a new flow; the parent is removed while the re-spawned child waits: the child
+# stands down in the new flow only, its history of the first flow stays (1/h, held, keeps the workflow alive)
+_ABH = _flow('            a => b\n            h')
+_CORPUS['rerun-then-remove-parent'] = (_ABH, [_cmd('hold', tasks=['1/h']), _L] + _job('1/a') + [_L, _L] + _job('1/b') + [
+    _L, _L, _cmd('pause'), _trig(['1/a'], flow=['new']), _L] + _job('1/a', sn=2) + [_L, _rm(['1/a']), _L, _L])
+_CORPUS['rerun-then-remove-parent-flows'] = (_ABH, [_cmd('hold', tasks=['1/h']), _L] + _job('1/a') + [_L, _L] + _job('1/b') + [
+    _L, _L, _cmd('pause'), _trig(['1/a'], flow=['new']), _L] + _job('1/a', sn=2) + [_L, _rm(['1/a'], flow=['1', '2']), _L, _L])
+
 # witnesses of the recorded findings (also run first on every check)
 _W_RACE = [_L, _sub('1/a'), _msg('1/a', 'started'), _L, _rm(['1/b']), _msg('1/a', 'succeeded'), _L, _L, _L]
 _W_ZOMBIE = [_L, _cmd('stop', mode='REQUEST(NOW)'), _sub('1/e'), _sub('2/e'), _L, {'op': 'restart'},
@@ -161,10 +169,11 @@ class C30(SchedProp):
             'commands: `cylc remove` of 1-5 instances (pooled in any state, finished, never spawned; grown along graph edges; '
             'now and then an id that names nothing) without --flow / --flow=all / --flow=N.. (existing and unused numbers), '
             'mixed with group triggers (--flow=new / N: several flows in the pool), hold / release / hold point / pause / '
-            'resume, and (third kind) stop + restart; non-trivial = distinct class (flow option, removed states, killed, '
+            'resume, (third kind) stop + restart, and (fourth kind) multi-flow histories: finished instances with graph '
+            'children are run again in a new flow and the parent of a waiting child is removed; non-trivial = distinct class (flow option, removed states, killed, '
             'flows reduced, prerequisites unset, children stood down, multi-flow pool, new flow by --flow, restart) per case')
-    kinds = ('cmdrm', 'cmdrmc', 'cmdrmr')
-    n_quick = 36
+    kinds = ('cmdrm', 'cmdrmc', 'cmdrmr', 'cmdrmf')
+    n_quick = 44
     n_thorough = 600
 
     # -- K-T: behaviour flags probed from the live code -------------------------------------------------------
@@ -279,6 +288,13 @@ class C30(SchedProp):
                     tags.add('unset')
             if a['flows_known'] != b['flows_known']:
                 tags.add('new-flow')
+            # a child that stands down while the DB holds rows of it in flows it is not in now
+            if b.get('xdb'):
+                for r in a['removed']:
+                    if r[4] != 'request':
+                        cur = set((bp.get((r[0], r[1])) or {}).get('fl', []))
+                        if any(row[0] == r[0] and row[1] == r[1] and set(row[2]) - cur for row in b['xdb']['states']):
+                            tags.add('child-other-flow-history')
             if any(len(t['fl']) > 1 for t in b['pool']):
                 tags.add('multiflow')
         if any(o['op'] == 'restart' for o in ops):
